@@ -20,6 +20,11 @@ theorem pI_rt (k : Nat) (hk : 0 < k) : RT (pI k) (encI k) (inI k) := by
 theorem pI_append (k : Nat) (hk : 0 < k) (x : Int) (hx : inI k x) (r : Bytes) : pI k (encI k x ++ r) = some (x, r) :=
   readI_append k hk x hx r
 
+theorem pI8_append (x : Int) (hx : inI 1 x) (r : Bytes) : pI8 (eI8 x ++ r) = some (x, r) := readI_append 1 (by decide) x hx r
+theorem pI16_append (x : Int) (hx : inI 2 x) (r : Bytes) : pI16 (eI16 x ++ r) = some (x, r) := readI_append 2 (by decide) x hx r
+theorem pI32_append (x : Int) (hx : inI 4 x) (r : Bytes) : pI32 (eI32 x ++ r) = some (x, r) := readI_append 4 (by decide) x hx r
+theorem pI64_append (x : Int) (hx : inI 8 x) (r : Bytes) : pI64 (eI64 x ++ r) = some (x, r) := readI_append 8 (by decide) x hx r
+
 theorem inI_len2 (n : Nat) (h : n ≤ 32767) : inI 2 (n : Int) := by
   unfold inI; simp; omega
 theorem inI_len4 (n : Nat) (h : n ≤ 2147483647) : inI 4 (n : Int) := by
